@@ -849,6 +849,15 @@ func (x *Run) prepareUse(ctx *useCtx, con *Contract, st *State) {
 		}
 		x.applyHavoc(h, ms)
 		ctx.results = x.freshResults(h, con.Target.Signature.Results())
+		if x.spec.nullable[con.TargetName] {
+			// declared "nullable-result": the pointer result may be nil (comma-ok
+			// lookups) - dereferencing it is an obligation, not an assumption
+			if len(ctx.results.Tup) > 0 {
+				ctx.results.Tup[0].MaybeNil = true
+			} else {
+				ctx.results.MaybeNil = true
+			}
+		}
 	} else {
 		// interface method / external: declared modifies or nothing
 		for _, m := range con.Modifies {
